@@ -199,7 +199,8 @@ OnChar(p, b, mode) ==
   LET known == p.dia = 0 \/ b \in Repertoire(p.dia)
       cell == [gap |-> IF p.out = <<>> THEN 0 ELSE p.gap,
                base |-> IF known THEN CodePoint(b, mode.cct) ELSE -1,
-               mark |-> IF p.dia = 0 THEN 0 ELSE IF known THEN Mark(p.dia) ELSE -1,
+               \* a character that is not judged may decompose into anything
+               mark |-> IF ~known \/ CodePoint(b, mode.cct) = -1 THEN -1 ELSE IF p.dia = 0 THEN 0 ELSE Mark(p.dia),
                fg |-> p.fg, bg |-> p.bg, bgj |-> p.bgj, it |-> p.it, ul |-> p.ul, row |-> p.row, dh |-> p.dh]
   IN  [p EXCEPT !.out = Append(@, cell), !.gap = 0, !.dia = 0]
 OnDiacritic(p, b) == [p EXCEPT !.dia = b]
@@ -457,7 +458,7 @@ FirstGapNone     == pen.out # <<>> => pen.out[1].gap = 0
 GapIsBreakIffRowChanges ==
   \A k \in 2..Len(pen.out) : (pen.out[k].gap = 3) = (pen.out[k].row > pen.out[k - 1].row)
 RowsMonotone     == \A k \in 2..Len(pen.out) : pen.out[k].row >= pen.out[k - 1].row
-MarkNeedsDiacritic == \A k \in 1..Len(pen.out) : pen.out[k].mark # 0 => tmode.cct = "00"
+MarkNeedsDiacritic == \A k \in 1..Len(pen.out) : pen.out[k].mark > 0 => tmode.cct = "00"   \* only ISO 6937 composes
 NothingAfterFiller == [][pen.stop => pen' = pen]_vars
 CellCarriesPen   == [][Len(pen'.out) > Len(pen.out) =>
                         LET c == pen'.out[Len(pen'.out)] IN
